@@ -16,6 +16,7 @@ import re
 from . import ir, engines
 from .engines import key
 
+POINTS = False      # set by the rule modules that arm ALIAS-RW for single points
 STRUCT_FIELDS = ("used", "sign", "dp")
 PT_FIELDS = ("x", "y", "z", "t", "coord")
 # public operations that read (only) these fields of a struct handle given at a const position; any other public
@@ -34,12 +35,14 @@ def handle_kind(fn, v):
     m = re.match(r"^(fp|fb|dv)_t\b", t)
     if m:
         return "vec", m.group(1) + "_t"
-    m = re.match(r"^(fp\d+|fb\d+)_t\b", t)
+    m = re.match(r"^(fp\d+|fb\d+|dv\d+)_t\b", t)
     if m:
         return "tower", m.group(1) + "_t"
-    # point structures (ep_t, eb_t, ed_t) are deliberately not handles of ALIAS-RW: a survey produced some 250 reports in
-    # src/epx alone, almost all through precomputation tables (arrays of points) that no caller passes as the output;
-    # the rule would not be exact there.  OUT-RBW below covers the output side of the point routines.
+    # point structures (ep_t, eb_t, ed_t): only single points are handles (POINTS switch); arrays of points are
+    # precomputation tables that no caller passes as the output - a survey with them produced some 250 reports in src/epx
+    m = re.match(r"^(ep\d*|eb|ed)_t$", t.strip())
+    if m and POINTS:
+        return "point", m.group(1) + "_t"
     return None, None
 
 
@@ -230,12 +233,18 @@ def node_effects(prog, fn, e, outs, ins):
 def hazards(ctx, prog, fn):
     """[(out var, in var, field, line of the read, line of the earlier write, reading callee or 'expression')]"""
     outs, ins = [], []
-    for v in fn.params:
+    pw = engines.param_writes(prog).get(fn)
+    if pw is None and getattr(prog, "library", None) is not None:
+        pw = engines.param_writes(prog).get(fn, set())
+    for i, v in enumerate(fn.params):
         k, t = handle_kind(fn, v)
         if k is None:
             continue
         info = fn.vars[v]
         is_const = info.get("pc") == 1 or (info.get("ot") or "").startswith("const")
+        # a parameter that is not declared const but through which the function never stores is an input all the same
+        if not is_const and pw is not None and i not in pw:
+            is_const = True
         (ins if is_const else outs).append(v)
     pairs = [(x, y) for x in outs for y in ins if handle_kind(fn, x)[1] == handle_kind(fn, y)[1]]
     # an output may also alias another *output*-typed input (in/out parameters are both)
@@ -246,44 +255,51 @@ def hazards(ctx, prog, fn):
     for nd in g.nodes:
         if nd.kind == "el" and not nd.proto:
             eff[nd.id] = node_effects(prog, fn, nd.el.e, outs, ins)
-    found = []
-    for x, y in pairs:
-        # forward may-analysis: fields of x written so far (with respect to y)
-        state = {g.entry.id: frozenset()}
-        work = [g.entry]
-        first_write = {}
-        while work:
-            nd = work.pop()
-            st = state[nd.id]
-            out = st
-            if nd.id in eff:
-                reads, writes, copies = eff[nd.id]
-                for (v, f) in reads:
-                    if v == y and (f in st or (isinstance(f, tuple) and any(overlap(f, w) for w in st))):
-                        calls = [c[1] for c in ir.calls_in(fn, nd.el.e) if c[1]]
-                        found.append((x, y, f, nd.line(), first_write.get(f), calls[-1] if calls else "expression"))
-                if (x, y) not in copies:
-                    new = frozenset(f for (v, f) in writes if v == x and (x, y, f) not in copies)
-                    for f in new:
-                        first_write.setdefault(f, nd.line())
-                    out = st | new
-                # a loop index that changes: paths through it now name an element of an earlier iteration
-                wv = engines.written_vars(prog, fn, nd.el.e)
-                if wv and any(isinstance(f, tuple) for f in out):
-                    ren = set()
-                    for f in out:
-                        if isinstance(f, tuple) and any(isinstance(c, tuple) and c[0] == "s" and (engines.key_vars(c[1]) & wv) for c in f):
-                            f = tuple(("old",) if (isinstance(c, tuple) and c[0] == "s" and (engines.key_vars(c[1]) & wv)) else c for c in f)
-                        ren.add(f)
-                    out = frozenset(ren)
-            if nd.kind in ("throw",):
-                continue
-            for s, l in nd.succ:
-                old = state.get(s.id)
-                new = out if old is None else (old | out)
-                if new != old:
-                    state[s.id] = new
-                    work.append(s)
+    found = None
+    for follow, assign in engines.condition_worlds(g):
+        found_w = []
+        for x, y in pairs:
+            # forward may-analysis: fields of x written so far (with respect to y)
+            state = {g.entry.id: frozenset()}
+            work = [g.entry]
+            first_write = {}
+            while work:
+                nd = work.pop()
+                st = state[nd.id]
+                out = st
+                if nd.id in eff:
+                    reads, writes, copies = eff[nd.id]
+                    for (v, f) in reads:
+                        if v == y and (f in st or (isinstance(f, tuple) and any(overlap(f, w) for w in st))):
+                            calls = [c[1] for c in ir.calls_in(fn, nd.el.e) if c[1]]
+                            found_w.append((x, y, f, nd.line(), first_write.get(f), calls[-1] if calls else "expression"))
+                    if (x, y) not in copies:
+                        new = frozenset(f for (v, f) in writes if v == x and (x, y, f) not in copies)
+                        for f in new:
+                            first_write.setdefault(f, nd.line())
+                        out = st | new
+                    # a loop index that changes: paths through it now name an element of an earlier iteration
+                    wv = engines.written_vars(prog, fn, nd.el.e)
+                    if wv and any(isinstance(f, tuple) for f in out):
+                        ren = set()
+                        for f in out:
+                            if isinstance(f, tuple) and any(isinstance(c, tuple) and c[0] == "s" and (engines.key_vars(c[1]) & wv) for c in f):
+                                f = tuple(("old",) if (isinstance(c, tuple) and c[0] == "s" and (engines.key_vars(c[1]) & wv)) else c for c in f)
+                            ren.add(f)
+                        out = frozenset(ren)
+                if nd.kind in ("throw",):
+                    continue
+                for s, l in nd.succ:
+                    if follow is not None and not follow(nd, s, l):
+                        continue
+                    old = state.get(s.id)
+                    new = out if old is None else (old | out)
+                    if new != old:
+                        state[s.id] = new
+                        work.append(s)
+        # a hazard counts if it exists in some world of the configuration queries (each world is a real configuration)
+        found = found_w if found is None else found + found_w
+    found = found or []
     # de-duplicate by (x, y, field, read line)
     seen = set()
     res = []
@@ -295,10 +311,20 @@ def hazards(ctx, prog, fn):
     return res, len(pairs)
 
 
-def rule(ctx, prog, chk, in_scope, exceptions, prefix_ok=("selftest",)):
+def rule(ctx, prog, chk, in_scope, exceptions, prefix_ok=("selftest",), points=False):
     """ALIAS-RW over the functions selected by in_scope(fn); exceptions: {(function, out, in, field, reader): reason}"""
+    global POINTS
     n = 0
     used = set()
+    saved = POINTS
+    POINTS = points
+    try:
+        return _rule(ctx, prog, chk, in_scope, exceptions, n, used)
+    finally:
+        POINTS = saved
+
+
+def _rule(ctx, prog, chk, in_scope, exceptions, n, used):
     for fn in prog.all:
         if not (in_scope(fn) or "selftest" in fn.file):
             continue
@@ -309,7 +335,7 @@ def rule(ctx, prog, chk, in_scope, exceptions, prefix_ok=("selftest",)):
         for (x, y, f, rl, wl, reader) in hs:
             k = None
             for ek in exceptions:
-                if ek[:4] == (base, fn.vars[x]["n"], fn.vars[y]["n"], f) and reader.startswith(ek[4]):
+                if ek[:3] == (base, fn.vars[x]["n"], fn.vars[y]["n"]) and (ek[3] == f or ek[3] == "*") and reader.startswith(ek[4]):
                     k = ek
             if k is not None:
                 used.add(k)
@@ -330,7 +356,7 @@ def rule(ctx, prog, chk, in_scope, exceptions, prefix_ok=("selftest",)):
 POINT_FIELDS = ("x", "y", "z", "t", "coord")
 
 
-def rule_out_rbw(ctx, prog, chk, in_scope, type_re, fields=POINT_FIELDS):
+def rule_out_rbw(ctx, prog, chk, in_scope, type_re, fields=POINT_FIELDS, exceptions=None, out_def=None):
     """OUT-RBW: in a function with an output structure X and an input structure of the same type, no field of X is read
     before that field of X was written on every path to the read (must-definition analysis): when output and input are
     different objects the output holds unspecified data, so such a read is a slip for the input's field"""
@@ -349,13 +375,25 @@ def rule_out_rbw(ctx, prog, chk, in_scope, type_re, fields=POINT_FIELDS):
             return fn.vars[v].get("pc") == 1 or (fn.vars[v].get("ot") or "").startswith("const")
         outs = [v for v in fn.params if tname(v) and not is_const(v)]
         ins = [v for v in fn.params if tname(v) and is_const(v)]
-        pairs = [(x, y) for x in outs for y in ins if tname(x) == tname(y)]
+        def is_arr(v):
+            t = fn.vars[v].get("ot") or fn.vars[v].get("t", "")
+            return "*" in t or "[" in t
+        pairs = [(x, y) for x in outs for y in ins if tname(x).split()[0] == tname(y).split()[0] and (not is_arr(x) or is_arr(y))]
         if not pairs:
             continue
         g = ctx.xcfg(prog, fn)
 
+        def is_obj(e, X):
+            """the output object itself: X, or an element X[i] of an array of outputs"""
+            a = ir.strip_casts(fn.resolve(e))
+            guard = 0
+            while isinstance(a, list) and a and a[0] == "x" and guard < 6:
+                guard += 1
+                a = ir.strip_casts(fn.resolve(a[1]))
+            return a == ["v", X]
+
         def field_of(e, X):
-            """(field, m-node) if the expression designates (a component of) a field of X"""
+            """(field, m-node) if the expression designates (a component of) a field of X (or of an element of X)"""
             a = ir.strip_casts(fn.resolve(e))
             guard = 0
             while isinstance(a, list) and a and a[0] in ("x", "u") and guard < 10:
@@ -363,12 +401,16 @@ def rule_out_rbw(ctx, prog, chk, in_scope, type_re, fields=POINT_FIELDS):
                 if a[0] == "u" and a[1] not in ("*", "&"):
                     break
                 a = ir.strip_casts(fn.resolve(a[1] if a[0] == "x" else a[2]))
-            if isinstance(a, list) and a and a[0] == "m" and a[2] in fields and ir.strip_casts(fn.resolve(a[1])) == ["v", X]:
+            if isinstance(a, list) and a and a[0] == "m" and a[2] in fields and is_obj(a[1], X):
                 return a[2], a
             return None, None
 
+        # fields that exist under this configuration (the extended coordinate t of Edwards points, say, may not)
+        fields_live = set(sub[2] for el in fn.all_elements() for sub in ir.walk(fn, el.e) if sub[0] == "m" and sub[2] in fields) | {"x", "y", "z", "coord"}
+        fields_live &= set(fields)
+
         def eff(e, X):
-            reads, writes, lhs = set(), set(), set()
+            reads, writes, lhs, whole = set(), set(), set(), set()
             for sub in ir.walk(fn, e):
                 if sub[0] in ("=", "o="):
                     f, m = field_of(sub[1] if sub[0] == "=" else sub[2], X)
@@ -383,50 +425,156 @@ def rule_out_rbw(ctx, prog, chk, in_scope, type_re, fields=POINT_FIELDS):
                         if f is not None:
                             if ir.arg_is_pointer(sub, i) and engines.callee_writes_arg(prog, fn, sub[1], i):
                                 writes.add(f)
+                                if re.search(r"_copy_sec$", sub[1]):
+                                    lhs.add(id(m))      # masked select chain: the old value only survives where a later select replaces it
                                 # the same field handed in at another position of the same call is a read
                                 if not any(j != i and key(fn, b) == key(fn, a) for j, b in enumerate(sub[2])):
                                     lhs.add(id(m))
-                        elif aa == ["v", X] and ir.arg_is_pointer(sub, i) and engines.callee_writes_arg(prog, fn, sub[1], i):
-                            writes.update(fields)
+                        elif is_obj(a, X) and ir.arg_is_pointer(sub, i):
+                            if engines.callee_writes_arg(prog, fn, sub[1], i):
+                                writes.update(fields)
+                                # the same object handed in at a const position of the same call is read whole
+                                if any(j != i and is_obj(b, X) and not engines.callee_writes_arg(prog, fn, sub[1], j) for j, b in enumerate(sub[2])):
+                                    whole.add(sub[1])
+                            elif not re.search(r"_(null|new|free|is_infty|set_infty)$", sub[1]):
+                                whole.add(sub[1])
             for sub in ir.walk(fn, e):
-                if sub[0] == "m" and sub[2] in fields and ir.strip_casts(fn.resolve(sub[1])) == ["v", X] and id(sub) not in lhs:
+                if sub[0] == "m" and sub[2] in fields and is_obj(sub[1], X) and id(sub) not in lhs:
                     reads.add(sub[2])
+            if whole:
+                reads.update(fields_live)
             return reads, writes
+        # edges of constant-trip loops that cannot be taken (for (m = 0; m < 8; ...) is entered at least once)
+        PF = engines.Facts(prog, g, mark_thrown=True)
+
+        def feasible(nd, label, succ):
+            st0 = PF.IN.get(nd)
+            if st0 is None:
+                return False
+            if st0 is engines.UNIVERSE:
+                return True
+            return PF._edge(nd, label, succ, PF._transfer(nd, st0)) is not engines.INFEASIBLE
+        def at_least_once(nd):
+            """a `for (v = c0; v < c1; ...)` head with constants c0 < c1"""
+            t = nd.info.get("term") or {}
+            if t.get("k") != "ForStmt" or t.get("c") is None:
+                return False
+            c = ir.peel(fn, t["c"])
+            if not (isinstance(c, list) and c[0] == "b" and c[1] in ("<", "<=")):
+                return False
+            l, r = ir.strip_casts(fn.resolve(c[2])), ir.peel(fn, c[3])
+            if not (isinstance(l, list) and l[0] == "v" and isinstance(r, list) and r[0] == "i"):
+                return False
+            for el in fn.all_elements():
+                e = el.e
+                init = None
+                if e[0] == "d" and e[1] == l[1] and e[2] is not None:
+                    init = ir.peel(fn, e[2])
+                elif e[0] == "=" and ir.strip_casts(e[1]) == ["v", l[1]]:
+                    init = ir.peel(fn, e[2])
+                if init is not None:
+                    if isinstance(init, list) and init[0] == "i" and (init[1] < r[1] or (c[1] == "<=" and init[1] == r[1])):
+                        continue
+                    # any other assignment of the index (besides the step, seen as ++) makes the claim unsafe
+                    if not (isinstance(init, list) and init[0] == "b" and init[1] in ("+",) and ir.strip_casts(fn.resolve(init[2])) == ["v", l[1]]):
+                        return False
+            return True
         for X in sorted(set(x for x, _ in pairs)):
-            state = {g.entry.id: frozenset()}
-            work = collections.deque([g.entry])
+            arr = is_arr(X)
+            # state: (fields written for the element currently designated - must; fields written for every element by a
+            # completed loop iteration - promoted when the index changes, joined by union)
+            # round-robin iteration, IN recomputed from the predecessors' OUT each round (the loop-exit promotion makes the
+            # transfer non-monotone, so states are not accumulated with their own earlier values)
             cache = {}
-            while work:
-                nd = work.popleft()
-                st = state[nd.id]
-                out = st
+            for nd in g.nodes:
                 if nd.kind == "el" and not nd.proto:
                     cache[nd.id] = eff(nd.el.e, X)
-                    out = st | frozenset(cache[nd.id][1])
-                same_on = None
-                if nd.kind == "br":
-                    t = nd.info.get("term")
-                    c = ir.peel(fn, t["c"]) if t and t.get("c") is not None else None
-                    if isinstance(c, list) and c[0] == "b" and c[1] in ("==", "!="):
-                        a, b = ir.strip_casts(fn.resolve(c[2])), ir.strip_casts(fn.resolve(c[3]))
-                        if isinstance(a, list) and isinstance(b, list) and a[0] == "v" and b[0] == "v" and X in (a[1], b[1]) and (a[1] in ins or b[1] in ins):
-                            same_on = "T" if c[1] == "==" else "F"      # the edge on which the output *is* the input
-                for s, l in nd.succ:
-                    o2 = out | frozenset(fields) if (same_on is not None and l == same_on) else out
-                    old = state.get(s.id)
-                    new = o2 if old is None else (old & o2)
-                    if new != old:
-                        state[s.id] = new
-                        work.append(s)
+            OUT = {}
+            state = {}
+            order = list(g.nodes)
+            for rnd in range(12):
+                changed = False
+                for nd in order:
+                    if nd is g.entry:
+                        st_in = (frozenset(), frozenset(), frozenset())
+                    else:
+                        st_in = None
+                        for p, l in nd.pred:
+                            o = OUT.get((p.id, id(nd), l))
+                            if o is None:
+                                continue
+                            st_in = o if st_in is None else (st_in[0] & o[0], st_in[1] | o[1], st_in[2] | o[2])
+                        if st_in is None:
+                            continue
+                    if state.get(nd.id) != st_in:
+                        state[nd.id] = st_in
+                        changed = True
+                    cur, allf, pend = st_in
+                    if nd.id in cache:
+                        cur = cur | frozenset(cache[nd.id][1])
+                        wv = engines.written_vars(prog, fn, nd.el.e)
+                        steps = any(fn.vars[v].get("c") in ("int", "unsigned long", "unsigned int", "long") and fn.vars[v]["k"] != "p" for v in wv)
+                        if steps and not arr:
+                            pend = pend | cur       # what the iteration wrote on every path (used only for loops known to run)
+                        if steps and arr:
+                            # an index steps on: what this iteration wrote on every path will hold for every element the
+                            # loop visits - once the loop is left (elements ahead are not written yet)
+                            pend = pend | cur
+                            cur = frozenset()
+                    same_on = None
+                    if nd.kind == "br":
+                        t = nd.info.get("term")
+                        c = ir.peel(fn, t["c"]) if t and t.get("c") is not None else None
+                        if isinstance(c, list) and c[0] == "b" and c[1] in ("==", "!="):
+                            a, b = ir.strip_casts(fn.resolve(c[2])), ir.strip_casts(fn.resolve(c[3]))
+                            if isinstance(a, list) and isinstance(b, list) and a[0] == "v" and b[0] == "v" and X in (a[1], b[1]) and (a[1] in ins or b[1] in ins):
+                                same_on = "T" if c[1] == "==" else "F"      # the edge on which the output *is* the input
+                    for s2, l in nd.succ:
+                        if nd.kind == "br" and not feasible(nd, l, s2):
+                            continue
+                        c2 = cur | frozenset(fields) if (same_on is not None and l == same_on) else cur
+                        a2, p2 = allf, pend
+                        if nd.kind == "br" and l == "F" and (nd.info.get("term") or {}).get("k") in ("ForStmt", "WhileStmt", "DoStmt"):
+                            if arr:
+                                a2, p2 = allf | pend, frozenset()      # loop exit
+                            elif at_least_once(nd):
+                                c2 = c2 | pend                          # the body ran: what every iteration writes is written
+                                p2 = frozenset()
+                            else:
+                                p2 = frozenset()
+                        k2 = (nd.id, id(s2), l)
+                        if OUT.get(k2) != (c2, a2, p2):
+                            OUT[k2] = (c2, a2, p2)
+                            changed = True
+                if not changed:
+                    break
             n += 1
+            # OUT-DEF: fields still unwritten at a normal return (scalar outputs only)
+            if out_def is not None and not arr:
+                undef = {}
+                for p0, l0 in g.exit.pred:
+                    o = OUT.get((p0.id, id(g.exit), l0))
+                    if o is None or p0.kind in ("throw", "raise", "noret"):
+                        continue
+                    # paths on which a throw has happened do not return a result
+                    st0 = PF.IN.get(p0)
+                    if st0 is None or st0 is engines.UNIVERSE or PF._transfer(p0, st0) is engines.UNIVERSE:
+                        continue
+                    for f in sorted(fields_live):
+                        if f not in o[0]:
+                            undef.setdefault(f, p0.line() or fn.line)
+                out_def.append((fn, X, undef))
             bad = {}
             for nd in g.nodes:
                 if nd.id in cache and nd.id in state:
                     r, w = cache[nd.id]
                     for f in r:
-                        if f not in state[nd.id]:
+                        if f not in state[nd.id][0] and f not in state[nd.id][1]:
                             bad.setdefault(f, nd.line())
             nm = fn.vars[X]["n"]
+            if bad and exceptions and (fn.name.split("__")[-1], nm) in exceptions:
+                chk.ok("OUT-RBW", fn, nm, "reviewed: " + exceptions[(fn.name.split("__")[-1], nm)], line=fn.line)
+                continue
             if bad:
                 for f, line in sorted(bad.items()):
                     chk.fail("OUT-RBW", fn, "%s.%s" % (nm, f), "`%s->%s` is read at a point where it has not been written on every path: when `%s` is not the input object it holds unspecified data there (a slip for the input's field)" % (nm, f, nm), line=line)
